@@ -490,6 +490,10 @@ class Inliner:
             call, kind = st.value, "annassign"
         elif isinstance(st, ast.AugAssign) and isinstance(st.value, ast.Call) and _simple(st.target):
             call, kind = st.value, "augassign"
+        if call is None and isinstance(st, ast.With) and len(st.items) == 1 and isinstance(st.items[0].context_expr, ast.Call):
+            cm = self._expand_with(st, host_cls, host_names, stack)
+            if cm is not None:
+                return cm
         neg = False
         if call is None and isinstance(st, ast.If):
             t = st.test
@@ -551,6 +555,68 @@ class Inliner:
         if hoisted is not None:
             return hoisted
         return None
+
+    def _expand_with(self, st, host_cls, host_names, stack):
+        """`with helper(a) [as v]: BODY` for a new @contextmanager helper with one statement-level yield: the helper's body with BODY in the
+        place of the yield (the usual try / yield / finally becomes try / BODY / finally)"""
+        call = st.items[0].context_expr
+        f = call.func
+        fn = None
+        if isinstance(f, ast.Name) and f.id in self.funcs:
+            fn, cls, self_expr = self.funcs[f.id], None, None
+        elif isinstance(f, ast.Attribute) and isinstance(f.value, ast.Name) and f.value.id == "self" and host_cls and (host_cls, f.attr) in self.methods:
+            fn, cls, self_expr = self.methods[(host_cls, f.attr)], host_cls, f.value
+        if fn is None:
+            return None
+        q = self._qual(cls, fn.name)
+        if q in self.known or q in stack or not fn.name.startswith("_"):
+            return None
+        decos = [ast.unparse(d).split(".")[-1] for d in fn.decorator_list]
+        if decos != ["contextmanager"] or fn.args.vararg or fn.args.kwarg:
+            return None
+        yields = [n for n in _own_nodes(fn) if isinstance(n, (ast.Yield, ast.YieldFrom))]
+        ystmts = [x for x in ast.walk(fn) if isinstance(x, ast.Expr) and isinstance(x.value, ast.Yield)]
+        if len(yields) != 1 or len(ystmts) != 1 or any(isinstance(n, ast.Return) and n.value is not None for n in _own_nodes(fn)) or any(isinstance(n, (ast.Global, ast.Nonlocal)) for n in ast.walk(fn)):
+            self.refused[q] = "context manager with other than one plain yield statement"
+            return None
+        real_decos = fn.decorator_list
+        fn.decorator_list = []
+        try:
+            bound = self._bind(fn, call, self_expr, host_names)
+        finally:
+            fn.decorator_list = real_decos
+        if bound is None:
+            return None
+        prologue, body = bound
+        with_body = st.body
+        as_var = st.items[0].optional_vars
+
+        def put(stmts):
+            out = []
+            for x in stmts:
+                if isinstance(x, ast.Expr) and isinstance(x.value, ast.Yield):
+                    if as_var is not None:
+                        out.append(ast.copy_location(ast.Assign(targets=[as_var], value=x.value.value or ast.Constant(value=None)), st))
+                    out.extend(with_body)
+                    continue
+                for fld in ("body", "orelse", "finalbody"):
+                    b = getattr(x, fld, None)
+                    if isinstance(b, list) and b and isinstance(b[0], ast.stmt):
+                        setattr(x, fld, put(b))
+                for h in getattr(x, "handlers", []) or []:
+                    h.body = put(h.body)
+                out.append(x)
+            return out
+
+        new = prologue + put(body)
+        # a bare `return` of the generator after the yield ends the manager: nothing follows it in the with statement either
+        new = [x for x in new if not (isinstance(x, ast.Return) and x.value is None)] if not any(isinstance(n, ast.Return) for x in new for n in ast.walk(x) if n is not x) else new
+        if any(isinstance(n, ast.Return) and n.value is None for x in new for n in ast.walk(x)) and not all(isinstance(n, ast.Return) and n.value is None for x in new for n in ast.walk(x) if isinstance(n, ast.Return)):
+            return None
+        self.expanded[q] = self.expanded.get(q, 0) + 1
+        for s_ in new:
+            ast.fix_missing_locations(s_)
+        return self.expand_block(new, host_cls, self._host_names_from(host_names, new), stack | {q})
 
     def _host_names_from(self, host_names, stmts):
         extra_st, extra_all = set(), set()
